@@ -1,4 +1,8 @@
 import DoitModel.Proofs.DelayedWF
+import DoitModel.Proofs.C15Obey3
+import DoitModel.Proofs.C15Target
+import DoitModel.Proofs.C15Clos
+import DoitModel.Proofs.C15Redef
 import DoitModel.Model.DelayedSel
 /-! # C15 — delayed task creation happens once, after its trigger
 
@@ -10,9 +14,19 @@ of a transition system that is exactly the serial `Runner` when `inp.serial` and
 `MRunner`/`MThreadRunner` for every `-n` (any number of tasks in flight, `generator.send(None)` at any time, any
 completion order, any iteration order of `waiting_me`).
 
-`onceOK`, `afterOK` are the decidable statements; the driver evaluates the same functions on the implementation's
-trace (the monitor).  The hypotheses are decidable (`trigB`; `resolvesB`, `coversB` for the pinned variant) and
-evaluated on every generated case. -/
+`onceOK`, `afterOK`, `obeyOK` are the decidable statements; the driver evaluates the same functions on the
+implementation's trace (the monitor).  The hypotheses are decidable (`trigB`, `rxB`; `resolvesB`, `coversB` for the
+pinned variant) and evaluated on every generated case.
+
+What is proved of `created_obey` / `target` and what is left (wave 3):
+* `C15_created_obey` is the full `obeyOK` statement over the dependency table of the `Task` objects the nodes hold
+  (`nodeDeps`), without further hypotheses.  Over `TaskControl.tasks` (`dynDeps`) it is `C15_created_obey_tasks`
+  with the decidable hypothesis `noRedefB`; the gap is real in the model and in doit (`self.tasks[nt.name] = nt` has
+  no guard, a creator may re-define a task that was already executed): `created_obey_needs_noRedef`.
+  `C15_created_obey_table` is the bridge (state hypothesis instead of `noRedefB`).
+* `C15_target` is the structural core, `C15_started_in_closure` the "exactly" half (nothing outside the closure of
+  the selection is started).  "The run does start the producer" (liveness) is not a model theorem; the monitor
+  `targetOK` evaluates it on exit 0. -/
 namespace DoitModel.C15
 open DoitModel.Delayed
 open DoitModel.Run (Name)
@@ -85,28 +99,105 @@ def dynDeps (s : Sys) (t : Name) : List Name :=
   | some td => td.deps
   | none => []
 
-/-- **created_obey**, full statement (ordering half NOT proved here; the once-only half is `C15_created_at_most_once`; evaluated by the monitor on every implementation trace with
-    the dependency table of the case): tasks registered by creators obey the C01/C02 rules — a `start` is preceded
-    by a good report of every dependency, at most one start and one terminal report per task.  The base run model
-    proves these for a static table (`Props/C01`, `Props/C02`); its step function cannot be instantiated with a
-    table that changes at run time, so the statement is kept as a definition. -/
-def C15_created_obey_full : Prop :=
-  ∀ (inp : Input), trigB inp = true → ∀ s, Reach inp s → obeyOK (dynDeps s) inp.noAct s.events = true
+/-- **created_obey**, ordering half and once-only half together, over the *dynamic* dependency table
+    `nodeDeps s` = task_deps of the `Task` object the node of a task holds (for a task a creator registered: the
+    object the creator yielded, implicit deps through targets included; for a placeholder nobody re-defined: the
+    mutated placeholder): in every reachable state, under every schedule and runner, every `start t` in the trace is
+    preceded by a good report (`success` / `skipUtd`) of every dependency — static or created — of the object that is
+    executed, there is no second start and no second terminal report, `success`/`failure` only after the start,
+    `unmet`/`skipUtd` only without one.  This is the statement the monitor evaluates (`obeyOK`).
+    Proof: `Proofs/C15Obey*.lean` (`NodeG`: while a node is not marked `bad` every dependency of its task is pending,
+    in the snapshot, awaited or good; a reset node re-processes all dependencies of its new task). -/
+theorem C15_created_obey (inp : Input) (h : trigB inp = true) (s : Sys) (hr : Reach inp s) :
+    obeyOK (nodeDeps s) inp.noAct s.events = true :=
+  (obey_reach (trigWF_of_bool h) hr).core.obey
 
-/-- a `_regex_target…` placeholder of the initial table still carries its loader and has the word as its file_dep -/
-def rxWF (inp : Input) : Prop :=
-  ∀ n td g, lookup0 inp.tasks0 n = some td → td.rx = some g → td.loader ≠ none ∧ inp.gtarget g ∈ td.fileDep
+/-- the ordering half spelled out: wherever `start t` occurs in the trace, every task_dep of the object the node of
+    `t` holds (it does not change after the start) has its good report *earlier* in the trace -/
+theorem C15_created_start_after_deps (inp : Input) (h : trigB inp = true) (s : Sys) (hr : Reach inp s)
+    (t : Name) (post pre : List Ev) (hev : s.events = post ++ Ev.start t :: pre) :
+    ∀ d ∈ nodeDeps s t, Ev.success d ∈ pre ∨ Ev.skipUtd d ∈ pre :=
+  obeyOK_start_split _ _ _ t post pre hev (C15_created_obey inp h s hr)
 
-/-- **target**, structural core (NOT proved; the observable statement is the monitor `targetOK` of the driver, evaluated
-    on every implementation trace): in a state that did not raise, a regex placeholder of word `x` that was reset
-    (its loader is `DelayedLoaded`) either has the task that owns target `x` among its task_deps — so the producer and
-    its closure are processed before it — or other loaders of its group are still to be tried; and `notFound x` is
-    raised only while nobody has registered `x`. -/
-def C15_target_full : Prop :=
-  ∀ (inp : Input), rxWF inp → ∀ (s : Sys), Reach inp s →
-    (∀ x, s.susp = .err (.notFound x) → s.targets x = none) ∧
+/-- **created_obey**, up-to-date rule (the model's `get_status` is the oracle `inp.utd`): a task — static or
+    created — that is up-to-date is never handed to execution, and only up-to-date tasks are skipped -/
+theorem C15_created_utd (inp : Input) (h : trigB inp = true) (s : Sys) (hr : Reach inp s) :
+    utdOK inp.utd s.events = true :=
+  (obey_reach (trigWF_of_bool h) hr).core.utd
+
+/-- … and over the task table itself (`dynDeps s` = task_deps of `TaskControl.tasks[t]` in state `s`), in every
+    state in which the table entry of every started task is still the object its node holds.  The two differ only
+    when a creator re-defines the name of a task that was already handed to execution (`self.tasks[nt.name] = nt`
+    has no guard); the old object ran with *its* dependencies (`C15_created_obey`), the new one is never executed
+    (`C15_created_at_most_once`).  `C15_created_obey_tasks` below discharges the hypothesis from `noRedefB`. -/
+theorem C15_created_obey_table (inp : Input) (h : trigB inp = true) (s : Sys) (hr : Reach inp s)
+    (hsame : ∀ t, Ev.start t ∈ s.events → nodeDeps s t = dynDeps s t) :
+    obeyOK (dynDeps s) inp.noAct s.events = true := by
+  rw [← obeyOK_congr (nodeDeps s) (dynDeps s) inp.noAct s.events hsame]
+  exact C15_created_obey inp h s hr
+
+/-- no re-definition: under `noRedefB` (a yielded name is new or a placeholder of the same creator, yields of
+    different creators are disjoint, `to_load` names a placeholder of the same creator, the dispatcher keeps
+    `evaluated_creators`) a node whose `Task` object carries no loader — every task that was handed to execution —
+    holds exactly `TaskControl.tasks[name]` -/
+theorem C15_node_holds_table (inp : Input) (h : noRedefB inp = true) (s : Sys) (hr : Reach inp s) (n : Name)
+    (nd : Node) (hn : s.nodes n = some nd) (hl : nd.task.loader = none) : s.tasks n = some nd.task :=
+  (redef_reach (redefWF_of_bool h) hr).t n nd hn hl
+
+/-- **created_obey** over the task table `TaskControl.tasks` as it is in the state (`dynDeps`): the statement the
+    placeholder `C15_created_obey_full` asked for, with the decidable hypothesis `noRedefB`.  Without it the
+    statement is false of the model and of doit (`created_obey_needs_noRedef` below). -/
+theorem C15_created_obey_tasks (inp : Input) (h : trigB inp = true) (h2 : noRedefB inp = true) (s : Sys)
+    (hr : Reach inp s) : obeyOK (dynDeps s) inp.noAct s.events = true := by
+  apply C15_created_obey_table inp h s hr
+  intro t ht
+  obtain ⟨nd, hn, hl⟩ :=
+    started_loaded (after_reach (trigWF_of_bool h) hr).cnt (obey_reach (trigWF_of_bool h) hr) t ht
+  have := (redef_reach (redefWF_of_bool h2) hr).t t nd hn hl
+  simp [nodeDeps, dynDeps, hn, this]
+
+/-- **target**, structural core.  `rxB`: a task of the initial table that belongs to a regex group (a
+    `_regex_target…` placeholder, or the creator's own task selected through its `target_regex`) carries a loader and
+    has the command-line word among its file_deps — what `_filter_tasks` builds.  Regex matching is the oracle that
+    decided which groups exist.  In every reachable state, under every schedule and runner:
+    * `notFound x` is raised only while nobody has registered `x` as a target **and** the group of `x` is exhausted
+      (no remaining loader could still produce it);
+    * in a state that did not raise, a regex placeholder of word `x` that was reset (its loader is `DelayedLoaded`)
+      has the task that owns target `x` among its task_deps — so by `C15_created_obey` the producer (and, through the
+      producer's own node, its dependencies) is processed before it — or other loaders of its group are still to be
+      tried.
+    "Exactly" (nothing outside the closure of the selection is started) is `C15_started_in_closure` below.
+    Not proved: liveness (the run does reach the producer's `start`; monitor `targetOK`). -/
+theorem C15_target (inp : Input) (h : rxB inp = true) (s : Sys) (hr : Reach inp s) :
+    (∀ x, s.susp = .err (.notFound x) → s.targets x = none ∧ ∃ g, inp.gtarget g = x ∧ s.gtasks g = []) ∧
     ((∀ e, s.susp ≠ .err e) → ∀ n nd g, s.nodes n = some nd → nd.task.rx = some g → nd.task.loader = none →
-      (∃ o, s.targets (inp.gtarget g) = some o ∧ o ∈ nd.task.deps) ∨ s.gtasks g ≠ [])
+      (∃ o, s.targets (inp.gtarget g) = some o ∧ o ∈ nd.task.deps) ∨ s.gtasks g ≠ []) := by
+  have hi := tgt_reach (rxWF_of_bool h) hr
+  exact ⟨hi.nf, fun hne n nd g hn hg hl => ((hi.ok hne).node n nd g hn hg).2 hl⟩
+
+/-- target + created_obey: when a loaded regex placeholder of word `x` is handed to execution, the task that owns
+    target `x` has its good report earlier in the trace (or the group still had other loaders to try) -/
+theorem C15_target_producer_first (inp : Input) (h1 : trigB inp = true) (h2 : rxB inp = true) (s : Sys)
+    (hr : Reach inp s) (hne : ∀ e, s.susp ≠ .err e) (n : Name) (nd : Node) (g : GId) (hn : s.nodes n = some nd)
+    (hg : nd.task.rx = some g) (hl : nd.task.loader = none) (post pre : List Ev)
+    (hev : s.events = post ++ Ev.start n :: pre) :
+    (∃ o, s.targets (inp.gtarget g) = some o ∧ (Ev.success o ∈ pre ∨ Ev.skipUtd o ∈ pre)) ∨ s.gtasks g ≠ [] := by
+  rcases (C15_target inp h2 s hr).2 hne n nd g hn hg hl with ⟨o, ho, hod⟩ | h
+  · exact Or.inl ⟨o, ho, C15_created_start_after_deps inp h1 s hr n post pre hev o (by simpa [nodeDeps, hn] using hod)⟩
+  · exact Or.inr h
+
+/-- **target**, "exactly": every task the dispatcher makes a node for — in particular every task that is handed to
+    execution — is in the closure of the selection: reachable from a selected task through task_dep edges of the
+    `Task` objects the nodes hold (`nodeDeps`: created tasks with their implicit deps, the reset regex placeholder
+    with the producer of its word) or of the initial table (`origDeps`: a placeholder's `executed` trigger).  For a
+    selection by target this is "the producer, what it depends on, and the creator's trigger — nothing else". -/
+theorem C15_nodes_in_closure (inp : Input) (s : Sys) (hr : Reach inp s) (n : Name) (nd : Node)
+    (hn : s.nodes n = some nd) : InClos inp s n :=
+  ((clos_reach hr).node n nd hn).1
+
+theorem C15_started_in_closure (inp : Input) (h : trigB inp = true) (s : Sys) (hr : Reach inp s) (t : Name)
+    (ht : Ev.start t ∈ s.events) : InClos inp s t :=
+  started_in_closure (after_reach (trigWF_of_bool h) hr).cnt (clos_reach hr) t ht
 
 /-! ### non-vacuity: a static trigger `0`; one creator with `creates=[1, 2]` (two loader objects, `executed = 0`) that
     yields task 1 and task 2 (which depends on 1); a static task 3 depending on both placeholders, selected.  The
@@ -151,6 +242,71 @@ example :
     (autoRun (exInput false) 200 (init (exInput false))).events.reverse =
       [.start 0, .success 0, .creator 0, .start 1, .success 1, .start 2, .success 2, .start 3, .success 3] := by
   decide
+/-- the hypotheses of the `created_obey` theorems hold for the example above -/
+example : noRedefB (exInput true) = true ∧ trigB (exInput true) = true := by decide
+
+/-! ### `noRedefB` is needed: static tasks 3 and 4, selection `[3, 1]`; task 3 runs first, then the creator of
+    placeholder 1 (trigger 0) yields a task named 3 that depends on 4.  `tasks[3]` is re-defined after task 3 was
+    executed; over the task table the ordering statement is false, over the node-held objects it holds.
+    Replayed on doit (dodo: static t0, t3, t4; `@create_after(executed='t0') task_t1` yielding basenames `t1` and
+    `t3` with `task_dep=['t4']`; `doit run t3 t1`): the static t3 runs, then t0, the creator, t1; the re-defined t3
+    and t4 never run, exit 0 — the model's trace. -/
+
+def exRedef : Input :=
+  { tasks0 := [(0, { act := true, oid := 0 }), (1, { deps := [0], loader := some 0, oid := 1 }),
+               (3, { act := true, oid := 3 }), (4, { act := true, oid := 4 })]
+    targets0 := []
+    creatorOf := fun _ => 0
+    execOf := fun _ => some 0
+    baseOf := fun _ => none
+    gtarget := fun _ => 0
+    gtasks0 := fun _ => []
+    make := fun _ _ => [{ name := 1 }, { name := 3, deps := [4] }]
+    sel := [3, 1] }
+
+theorem created_obey_needs_noRedef :
+    trigB exRedef = true ∧ noRedefB exRedef = false ∧
+    Reach exRedef (autoRun exRedef 200 (init exRedef)) ∧
+    (autoRun exRedef 200 (init exRedef)).events.reverse =
+      [.start 3, .success 3, .start 0, .success 0, .creator 0, .start 1, .success 1] ∧
+    obeyOK (dynDeps (autoRun exRedef 200 (init exRedef))) exRedef.noAct (autoRun exRedef 200 (init exRedef)).events = false ∧
+    obeyOK (nodeDeps (autoRun exRedef 200 (init exRedef))) exRedef.noAct (autoRun exRedef 200 (init exRedef)).events = true :=
+  ⟨by decide, by decide, autoRun_reach 200 _ Reach.init, by decide, by decide, by decide⟩
+
+/-! ### non-vacuity of the target rule: trigger `0`; task 1 = the creator's own placeholder; task 5 = the
+    `_regex_target…` placeholder of word 7 (loader copy 1 with basename 1, group 0 = {1}); selection `[5]`. -/
+
+def exRx (produce : Bool) : Input :=
+  { tasks0 := [(0, { act := true, oid := 0 }), (1, { deps := [0], loader := some 0, oid := 1 }),
+               (5, { deps := [0], loader := some 1, fileDep := [7], rx := some 0, isRx := true, oid := 5 }),
+               (9, { act := true, oid := 9 })]
+    targets0 := []
+    creatorOf := fun _ => 0
+    execOf := fun _ => some 0
+    baseOf := fun l => if l = 1 then some 1 else none
+    gtarget := fun _ => 7
+    gtasks0 := fun _ => [1]
+    make := fun _ _ => if produce then [{ name := 1, targets := [7] }] else [{ name := 1 }]
+    sel := [5] }
+
+/-- the creator yields the producer of word 7: the placeholder is reset with the producer among its task_deps and
+    runs after it; the unselected static task 9 is not touched -/
+example :
+    rxB (exRx true) = true ∧ trigB (exRx true) = true ∧ noRedefB (exRx true) = true ∧
+    (autoRun (exRx true) 200 (init (exRx true))).susp = .stopIter ∧
+    (autoRun (exRx true) 200 (init (exRx true))).events.reverse =
+      [.start 0, .success 0, .creator 0, .start 1, .success 1, .start 5, .success 5] ∧
+    (((autoRun (exRx true) 200 (init (exRx true))).nodes 5).map fun nd => (nd.task.deps, nd.task.loader, nd.task.rx)) =
+      some ([0, 1], none, some 0) := by
+  decide
+
+/-- nobody produces word 7 and the group is exhausted: `notFound 7` -/
+example :
+    rxB (exRx false) = true ∧
+    (autoRun (exRx false) 200 (init (exRx false))).susp = .err (.notFound 7) ∧
+    (autoRun (exRx false) 200 (init (exRx false))).events.reverse = [.start 0, .success 0, .creator 0] := by
+  decide
+
 /-! ### `_filter_tasks`: task 0 = trigger, task 1 = placeholder of a creator with a target_regex that matches word 3;
     word 2 = the sub-task name `1:x` (base 1).  Selection `1:x out_y`. -/
 
